@@ -114,13 +114,16 @@ package dotgit
 // write.
 
 // checkReferenceAndTruncate returns nil only if no old value was given or the
-// stored hash (loose file, else packed refs) equals the expected one.
+// stored value (loose file, else packed refs) equals the expected one: the
+// same kind of reference, the same id, and for a symbolic reference (type 2)
+// the same target (two symbolic references both have the zero id).
 //gvc:func (*DotGit).checkReferenceAndTruncate
 //gvc:  props C16
 //gvc:  theory int
 //gvc:  opt coarse
 //gvc:  opt frame args
 //gvc:  sink Truncate requires compared: old != nil && ref != nil && forall(k, 0, 32, ref.h.hash[k] == old.h.hash[k])
+//gvc:  sink Truncate requires samekind: ref.t == old.t && (ref.t == 2 ==> strid(ref.target) == strid(old.target))
 //gvc:  grants checked: result == nil ==> f.#checked
 //gvc:end
 
